@@ -95,6 +95,33 @@ int main(void)
 			free(in);
 			continue;
 		}
+		if (!strncmp(line, "q.gsort ", 8)) {
+			/* q.gsort N SEED K MODE : event sort of a generated array (too long for a line): element i has key index
+			 * ki(i) in [0,K) from a 64-bit LCG (MODE 0), ascending (1), descending (2) or a sawtooth (3) and is the
+			 * all-day instant 2000-01-01 + ki in a 360-day calendar; answer: the input indices in sorted order */
+			unsigned long long N = 0, seed = 0, K = 1; int mode = 0;
+			sscanf(line + 8, "%llu %llu %llu %d", &N, &seed, &K, &mode);
+			if (K == 0) K = 1;
+			echs_event_t *e = calloc(N + 1, sizeof(*e));
+			unsigned long long s = seed;
+			for (size_t i = 0; i < N; i++) {
+				unsigned long long ki;
+				s = s * 6364136223846793005ULL + 1442695040888963407ULL;
+				switch (mode) {
+				default: ki = (s >> 33) % K; break;
+				case 1: ki = (unsigned long long)i * K / N; break;
+				case 2: ki = K - 1 - (unsigned long long)i * K / N; break;
+				case 3: ki = (i % 1000) * K / 1000; break;
+				}
+				e[i].from = (echs_instant_t){.y = 2000 + ki / 360, .m = 1 + (ki / 30) % 12, .d = 1 + ki % 30, .H = ECHS_ALL_DAY};
+				e[i].oid = (echs_oid_t)i;
+			}
+			echs_event_sort(e, N);
+			for (size_t i = 0; i < N; i++) printf("%s%zu", i ? " " : "", (size_t)e[i].oid);
+			putchar('\n');
+			free(e);
+			continue;
+		}
 		/* split on single spaces, at most 16 fields; the last one takes the rest */
 		for (char *p = line; n < 16;) {
 			a[n++] = p;
